@@ -262,15 +262,25 @@ func VerifC02_CachedExpiry() {
 	case 4:
 		expires = now + 2
 	}
-	r.Meta().Expires = expires
+	// or: cached without an expiry, which is then set through the same interface
+	setLater := rt.Bool("expiry-set-after-caching")
+	if !setLater {
+		r.Meta().Expires = expires
+	}
 	// the record enters the cache through a write or through a read
 	if rt.Bool("viaPut") {
 		rt.Assert(cached.Put(r) == nil, "cachedexpiry/put-ok")
 		// Put refreshes the meta data but keeps the expiry
-		rt.Assert(r.Meta().Expires == expires, "cachedexpiry/put-keeps-expiry")
+		if !setLater {
+			rt.Assert(r.Meta().Expires == expires, "cachedexpiry/put-keeps-expiry")
+		}
 	} else {
 		_, _ = c.storage.Put(r)
 		_, _ = cached.Get("t:a")
+	}
+	if setLater && expires != 0 {
+		err := cached.SetAbsoluteExpiry("t:a", expires)
+		rt.Assert(err == nil, "cachedexpiry/setexpiry-ok")
 	}
 	// the clock advances between the operations (a cache entry with zero time
 	// to live is dead only once the clock has moved on: on the frozen virtual
@@ -339,7 +349,9 @@ func VerifC02_DelayedWrites() {
 	rt.NoTimers()
 	rt.SchedYieldOnly(true)
 	c02Setup(rt.Bool("shadowdelete"))
-	cached := NewInterface(&Options{Local: true, Internal: true, CacheSize: 4, DelayCachedWrites: "t"})
+	// a small cache, and one so large that a few pending writes are below 1% of it
+	size := []int{4, 256}[rt.Choice("cachesize", 2)]
+	cached := NewInterface(&Options{Local: true, Internal: true, CacheSize: size, DelayCachedWrites: "t"})
 	plain := NewInterface(&Options{Local: true, Internal: true})
 	keys := []string{"a", "b"}
 	type entry struct {
